@@ -32,8 +32,10 @@ def _cfgs():
     return {
         "c1": (default_cfg(input="UNM", gm=["DSC"]), None),
         "c2": (default_cfg(input="MAT", dm="IOU", dthr=[1, 2], im=["DSC", "IOU", "RVD"], gm=["DSC", "IOU"], h=DISTINCT_H), None),
-        "c3": (default_cfg(input="SEM", matcher="merge", mm="DSC", thr=[1, 3], gm=["DSC", "RVD"]),
-               lambda: SegmentationClassGroups({"one": LabelGroup([1]), "rest": LabelGroup([2, 3])})),
+        # a single-instance group first, then a plain group evaluated with a decision threshold:
+        # per-group overrides must not leak into later groups or later calls
+        "c3": (default_cfg(input="SEM", matcher="naive", mm="IOU", thr=[1, 4], dm="IOU", dthr=[2, 3], im=["DSC", "IOU", "RVD"], gm=["DSC", "RVD"]),
+               lambda: SegmentationClassGroups({"one": LabelGroup([1], single_instance=True), "rest": LabelGroup([2, 3])})),
     }
 
 
